@@ -6,7 +6,7 @@
    Abstractions: tower ids, locators, net addresses, signatures, blobs are `N` ids (the harness
    owns the maps id <-> real key / string / bytes); u32 fields are `N`.
    The code is modelled AS IT IS: every `.unwrap()` that can fail on a modelled path is an
-   explicit `RAbort site`; an abort while the WTClient mutex is held poisons it (`c_poisoned`):
+   explicit `RAbort cl_site`; an abort while the WTClient mutex is held poisons it (`c_poisoned`):
    every later operation aborts until the process is restarted (`wt_reload`).
    HashMap<TowerId,_> = association list without duplicate keys (`aset`), HashSet<Locator> = list
    without duplicates (`set_add`), compared as sets.
@@ -42,7 +42,7 @@ Record client := mk_client {
   c_poisoned : bool                (* the Mutex<WTClient> is poisoned *)
 }.
 
-Inductive site :=
+Inductive cl_site :=
 | Site_poisoned                          (* `.lock().unwrap()` on the poisoned mutex *)
 | Site_add_update_tower_load_unwrap      (* wt_client.rs: load_tower_record(tower_id).unwrap() *)
 | Site_store_tower_record_unwrap
@@ -62,7 +62,7 @@ Inductive cres :=
 | RSubErrSlots            (* Err(SubscriptionError::Slots) *)
 | RNotFound               (* Err(DBError::NotFound) *)
 | RUnknownTower           (* the `else { log::error!(..) }` branch: nothing happens *)
-| RAbort (s : site).
+| RAbort (s : cl_site).
 
 (* ---------- dbm.rs ---------- *)
 Definition dbm_new : db :=
@@ -152,7 +152,7 @@ Record tower_info := mk_tower_info {
   ti_proof : option proof_info
 }.
 
-Inductive lres := LNone | LSome (i : tower_info) | LAbort (s : site).
+Inductive lres := LNone | LSome (i : tower_info) | LAbort (s : cl_site).
 
 (* load_appointments(tower_id, status): SELECT a.* FROM appointments a, <table> t WHERE a.locator = t.locator AND t.tower_id = ? *)
 Definition load_appointments (d : db) (locs : list N) : list row :=
@@ -238,9 +238,18 @@ Definition dbm_store_misbehaving_proof (d : db) (t l sb usig tsig recovered : N)
   | DbErr e => DbErr e
   end.
 
-(* remove_tower_record: remove_data("DELETE FROM towers WHERE tower_id=?") *)
+(* remove_tower_record: remove_data("DELETE FROM towers WHERE tower_id=?")?; then
+   DELETE FROM appointments WHERE locator NOT IN (SELECT locator FROM pending_appointments)
+                              AND locator NOT IN (SELECT locator FROM invalid_appointments)
+   (two autocommit statements; the second one cannot fail on this schema — ClientProofs.gc_never_fails) *)
+Definition unreferenced_root (d : db) : nat -> row -> bool :=
+  fun c r => Nat.eqb c T_appointments && Nat.eqb (ref_count d (col r C_appointments_locator)) 0.
+
 Definition dbm_remove_tower_record (d : db) (t : N) : dbres db :=
-  db_delete CS d T_towers [C_towers_tower_id] [t] true.
+  match db_delete CS d T_towers [C_towers_tower_id] [t] true with
+  | DbOk d1 => db_delete_root CS d1 (unreferenced_root d1)
+  | DbErr e => DbErr e
+  end.
 
 Definition dbm_load_appointment (d : db) (l : N) : option row := find_pk CS d T_appointments [l].
 Definition dbm_load_appointment_receipt (d : db) (t l : N) : option row := find_pk CS d T_appointment_receipts [l; t].
@@ -312,11 +321,14 @@ Definition wt_set_tower_status (c : client) (t : N) (st : tower_status) : client
 Definition wt_add_appointment_receipt (c : client) (t l slots sb usig tsig : N) : client * cres :=
   match aget (c_towers c) t with
   | Some s =>
+    (* a receipt for (tower, locator) is already stored: keep the first one (fix 2ac17cc) *)
+    match dbm_load_appointment_receipt (c_db c) t l with Some _ => (c, ROk) | None =>
     (* tower.available_slots = available_slots; then the store, unwrapped *)
     let c1 := with_towers c (aset (c_towers c) t (su_with_slots s slots)) in
     match dbm_store_appointment_receipt (c_db c) t l slots sb usig tsig with
     | DbOk d' => (with_db c1 d', ROk)
     | DbErr _ => (poison c1, RAbort Site_store_appointment_receipt_unwrap)
+    end
     end
   | None => (c, RUnknownTower)
   end.
@@ -324,6 +336,8 @@ Definition wt_add_appointment_receipt (c : client) (t l slots sb usig tsig : N) 
 Definition wt_add_pending_appointment (c : client) (t l blob delay : N) : client * cres :=
   match aget (c_towers c) t with
   | Some s =>
+    (* `if !tower.pending_appointments.insert(locator) { return }` (fix 2ac17cc) *)
+    if memN l (su_pending s) then (c, ROk) else
     let c1 := with_towers c (aset (c_towers c) t (su_with_pending s (set_add l (su_pending s)))) in
     match dbm_store_pending_appointment (c_db c) t l blob delay with
     | DbOk d' => (with_db c1 d', ROk)
@@ -346,6 +360,7 @@ Definition wt_remove_pending_appointment (c : client) (t l : N) : client * cres 
 Definition wt_add_invalid_appointment (c : client) (t l blob delay : N) : client * cres :=
   match aget (c_towers c) t with
   | Some s =>
+    if memN l (su_invalid s) then (c, ROk) else
     let c1 := with_towers c (aset (c_towers c) t (su_with_invalid s (set_add l (su_invalid s)))) in
     match dbm_store_invalid_appointment (c_db c) t l blob delay with
     | DbOk d' => (with_db c1 d', ROk)
@@ -363,6 +378,14 @@ Definition wt_flag_misbehaving_tower (c : client) (t l sb usig tsig recovered : 
     end
   | None => (c, RUnknownTower)
   end.
+
+(* has_appointment (fix 2ac17cc): a record (pending, invalid or receipt) of (tower, locator) exists *)
+Definition wt_has_appointment (c : client) (t l : N) : bool :=
+  (match aget (c_towers c) t with
+   | Some s => memN l (su_pending s) || memN l (su_invalid s)
+   | None => false
+   end) ||
+  (match dbm_load_appointment_receipt (c_db c) t l with Some _ => true | None => false end).
 
 (* remove_tower: towers.remove; dbm.remove_tower_record -> Result.  (`retriers` is not touched.) *)
 Definition wt_remove_tower (c : client) (t : N) : client * cres :=
